@@ -11,6 +11,7 @@ import (
 	"path/filepath"
 	"sort"
 	"strings"
+	"time"
 
 	"verif/genrun"
 	"verif/vmap"
@@ -26,11 +27,14 @@ type SpecJob struct {
 }
 
 type Job struct {
-	Specs   []SpecJob `json:"specs"`
-	Bound2  bool      `json:"bound2"`
-	Shard   int       `json:"shard"`
-	Shards  int       `json:"shards"`
-	Scratch string    `json:"scratch"`
+	Specs  []SpecJob `json:"specs"`
+	Bound2 bool      `json:"bound2"`
+	// Bound2Seconds: wall-clock budget of the pair pass in this process (0 = none); when it runs out the
+	// pass stops and reports how many first deviations it completed
+	Bound2Seconds int    `json:"bound2Seconds"`
+	Shard         int    `json:"shard"`
+	Shards        int    `json:"shards"`
+	Scratch       string `json:"scratch"`
 }
 
 type Violation struct {
@@ -52,6 +56,11 @@ type Out struct {
 	BaseOutcome map[string]string            `json:"baseOutcome"`
 	MaxKeys     int                          `json:"maxKeys"`
 	Reduced     int64                        `json:"reduced"` // points with more keys than the full-permutation bound
+	// pair pass (bound 2): first deviations (goag point × {swap, reversal}) whose every later goag point was deviated too
+	Bound2Runs      int64 `json:"bound2Runs"`
+	Bound2UnitsDone int64 `json:"bound2UnitsDone"`
+	Bound2Units     int64 `json:"bound2Units"`
+	Bound2Capped    bool  `json:"bound2Capped"`
 }
 
 type runResult struct {
@@ -129,6 +138,11 @@ func main() {
 	}
 	out := Out{Sites: map[string]int64{}, Base: map[string]map[string]string{}, BaseOutcome: map[string]string{}}
 	unit := 0
+	type specBase struct {
+		s    *SpecJob
+		base runResult
+	}
+	var bases []specBase
 	for si := range job.Specs {
 		s := &job.Specs[si]
 		base := runOnce(job.Scratch, s, nil)
@@ -163,26 +177,66 @@ func main() {
 					out.Violations = append(out.Violations, Violation{Spec: s.ID, Class: "order-dependent", Site: p.Site, Choices: choices, Diff: d})
 					break // one witness per point is enough
 				}
-				if !job.Bound2 || !isGoag(p.Site) {
+			}
+		}
+		bases = append(bases, specBase{s, base})
+	}
+	// pair pass (bound 2): at every goag point the two extreme orders (swap of the last two keys, full
+	// reversal), and under each of them the same two orders at every LATER goag point of that run
+	if job.Bound2 {
+		start := time.Now()
+		pairAlts := func(p vmap.Point) []int {
+			if p.Alts <= 1 {
+				return nil
+			}
+			rev := p.Alts - 1 // n <= Full: last permutation in lexicographic order = reversal
+			if p.N > vmap.Full {
+				rev = p.N // identity, n-1 transpositions, then the reversal
+			}
+			if rev == 1 {
+				return []int{1}
+			}
+			return []int{1, rev}
+		}
+		unit2 := 0
+	pairs:
+		for _, sb := range bases {
+			for i, p := range sb.base.trace {
+				if !isGoag(p.Site) {
 					continue
 				}
-				// bound 2: a second deviation at every later goag point of THIS run
-				for j := i + 1; j < len(r.trace); j++ {
-					q := r.trace[j]
-					if !isGoag(q.Site) {
-						continue
-					}
-					for alt2 := 1; alt2 < q.Alts; alt2++ {
-						c2 := make([]int, j+1)
-						copy(c2, choices)
-						c2[j] = alt2
-						r2 := runOnce(job.Scratch, s, c2)
-						if d := diff(base, r2); len(d) > 0 {
-							out.Violations = append(out.Violations, Violation{Spec: s.ID, Class: "order-dependent", Site: p.Site, Site2: q.Site, Choices: c2, Diff: d})
-							break
+				unit2++
+				if job.Shards > 0 && unit2%job.Shards != job.Shard {
+					continue
+				}
+				out.Bound2Units++
+				for _, alt := range pairAlts(p) {
+					choices := make([]int, i+1)
+					choices[i] = alt
+					r := runOnce(job.Scratch, sb.s, choices)
+					for j := i + 1; j < len(r.trace); j++ {
+						q := r.trace[j]
+						if !isGoag(q.Site) {
+							continue
+						}
+						for _, alt2 := range pairAlts(q) {
+							if job.Bound2Seconds > 0 && time.Since(start) > time.Duration(job.Bound2Seconds)*time.Second {
+								out.Bound2Capped = true
+								break pairs
+							}
+							c2 := make([]int, j+1)
+							copy(c2, choices)
+							c2[j] = alt2
+							r2 := runOnce(job.Scratch, sb.s, c2)
+							out.Bound2Runs++
+							if d := diff(sb.base, r2); len(d) > 0 {
+								out.Violations = append(out.Violations, Violation{Spec: sb.s.ID, Class: "order-dependent", Site: p.Site, Site2: q.Site, Choices: c2, Diff: d})
+								break
+							}
 						}
 					}
 				}
+				out.Bound2UnitsDone++
 			}
 		}
 	}
